@@ -126,8 +126,9 @@ def check(sc, obs):
                 probes["case_" + tag["name_case"]] += 1
             if flow_good is None:
                 flow_good, flow_reason = good, reason
-            key = {"reason": reason, "name_case": tag.get("name_case", "?"), "chain": org["cert"].get("chain", "root"),
-                   "id": pki_a.identity_of(ident)[0]}
+            # the verdict's reason identifies the failure mode; the name case matters only for name mismatches
+            key = {"reason": reason, "id": pki_a.identity_of(ident)[0],
+                   "name_case": tag.get("name_case", "?") if reason == "name_mismatch" else "-"}
             if not good:
                 faults["bad_upstream_certificate"] += 1
             if not good and not insecure:
